@@ -277,13 +277,15 @@ def exec (env : Env) (fs : FS) : Call → FS × Ret
   | .reflink src dst =>
     match fs.readFile src with
     | .ok b =>
-      -- reflink-copy creates the destination with O_EXCL first, then asks for the clone
-      if (fs.get dst).isSome then (fs, .err .exists)
-      else if !fs.isDir (parent dst) then (fs, .err .notFound)
+      -- reflink-copy creates the destination with O_EXCL first, then asks for the clone; whatever goes
+      -- wrong, when the source path itself (lstat) is not a regular file - a symlink, as the content
+      -- path of a linked entry is - the error is replaced by `InvalidInput`
+      let viaLink : Bool := match fs.get src with | some (.file _) => false | _ => true
+      if (fs.get dst).isSome then (fs, .err (if viaLink then .other else .exists))
+      else if !fs.isDir (parent dst) then (fs, .err (if viaLink then .other else .notFound))
       else if !env.reflinkOK then (fs, .err .other)
       else (fs.put dst (.file b), .unit)
-    -- reflink-copy refuses a source that is not an existing regular file with `InvalidInput`
-    -- (before it looks at the destination)
+    -- ... likewise for a source that is not there at all
     | .error _ => (fs, .err .other)
   | .walk p =>
     match fs.get p with
